@@ -366,8 +366,18 @@ pub fn run_spline_job_t<T: Fl>(job: &SplineJob, want: Want, out: &mut JobOut) {
                     let hm = l.h.min(r.h);
                     let e1 = (l.d1(true) - r.d1(false)).abs();
                     let e2 = (l.d2(true) - r.d2(false)).abs();
-                    let t1 = 64.0 * tol0 / hm;
-                    let t2 = 256.0 * tol0 / (hm * hm);
+                    // the jump is judged against the size of the curve near the knot (two pieces
+                    // to either side), not against the largest coefficient of the whole axis: on a
+                    // strongly graded axis those differ by the mesh ratio
+                    let lo = i.saturating_sub(2);
+                    let hi = (i + 2).min(n - 1);
+                    let mut sc_loc = f64::MIN_POSITIVE;
+                    for p in &pieces[lo..hi] {
+                        sc_loc = sc_loc.max(p.y0.abs()).max(p.y1.abs()).max(p.a.abs()).max(p.b.abs());
+                    }
+                    let tol_loc = k * eps * sc_loc.min(scale);
+                    let t1 = 64.0 * tol_loc / hm;
+                    let t2 = 256.0 * tol_loc / (hm * hm);
                     out.maximum("d1_jump_over_tol", e1 / t1);
                     out.maximum("d2_jump_over_tol", e2 / t2);
                     out.evals += 2;
